@@ -90,7 +90,7 @@ func runHammer(wl Workload) Stress {
 						t.Get(p).Value()
 					case 3:
 						t.Get(p).IsBranch()
-						t.Get(p[:len(p)-1]).Children()
+						t.Get(p[:len(p)-1]).Children() // no Delete in this run
 					default:
 						t.GetLeaf(p).Value()
 					}
@@ -175,7 +175,10 @@ func runAPI(wl Workload) Stress {
 					case 2:
 						t.Get(lp).Value()
 					case 3:
+						// Children of a node returned by Get (crashed the process
+						// before repo commit 3480f62: map iteration vs Delete)
 						t.Get(lp[:len(lp)-1]).Children()
+						t.Get(lp[:1]).Children()
 					case 4:
 						t.Get(lp[:len(lp)-1]).IsBranch()
 					case 5:
